@@ -62,7 +62,7 @@ Section Sound.
     | MWith | MOff | MAbove | MBelow | MFork | MBracket | MTry | MDipN _
     | MReduce | MScan | MFold | MRows | MEach | MInventory | MTable | MTuples | MGroup | MPartition
     | MSpawn | MPool | MRepeat | MRepeatWithInverse | MStencil | MReduceContent | MReduceDepth _
-    | MHandleSig | MBothImpl _ _ | MUnBothImpl _ _ => true
+    | MHandleSig | MBothImpl _ _ | MUnBothImpl _ _ | MDo => true
     | _ => false end.
   (** modifiers checked in context whose run-time form uses the stored signature *)
   Definition needs_exact (mk : modk) : bool :=
@@ -1056,6 +1056,114 @@ Section Sound.
              Tf Of U1 U2 B1 Ha0 Hd Hhs Hw S2 eq_refl).
   Qed.
 
+
+  (** ---- do (the body undoes what the condition leaves) ---- *)
+  Lemma do_loop_frame cond body cc A A' ac oc ab ob :
+    frames_all cond ac oc -> frames_all body ab ob ->
+    cc <= ac -> ac <= A -> 1 <= oc -> A' + 1 = A + cc - ac + oc -> ab <= A' -> A' - ab + ob = A ->
+    forall k s, A <= length (stk s) ->
+    match do_loop cond body cc k s with
+    | Ok s' => exists outs, stk s' = outs ++ skipn A (stk s) /\ length outs = A' /\
+                            und s' = und s /\ hid s' = hid s
+    | Err _ s' => exists j uj, stk s' = j ++ skipn A (stk s) /\ und s' = uj ++ und s /\ hid s' = hid s
+    | OOF | Unk => True end.
+  Proof.
+    intros Hc Hb Hcc Hac Hoc HA' Hab HA.
+    induction k as [|k IHk]; intros s Hl; cbn [do_loop]; [exact I|].
+    unfold need. assert (En : (cc <=? length (stk s)) = true) by (apply Nat.leb_le; lia).
+    rewrite En. cbn [negb].
+    set (T := firstn A (stk s)). set (B := skipn A (stk s)).
+    assert (Es : stk s = T ++ B) by (unfold T, B; symmetry; apply firstn_skipn).
+    assert (LT : length T = A) by (unfold T; rewrite firstn_length; lia).
+    set (s1 := set_stk s (firstn cc (stk s) ++ stk s)).
+    set (pre := firstn cc (stk s) ++ T).
+    assert (Lpre : length pre = cc + A) by (unfold pre; rewrite app_length, firstn_length; lia).
+    assert (Es1 : stk s1 = firstn ac pre ++ (skipn ac pre ++ B)).
+    { unfold s1. cbn [set_stk stk]. rewrite app_assoc, firstn_skipn. unfold pre. rewrite Es at 2.
+      rewrite app_assoc. reflexivity. }
+    pose proof (Hc (skipn ac pre ++ B) (und s) (hid s) s1 (firstn ac pre) Es1
+                   ltac:(rewrite firstn_length; lia) eq_refl eq_refl) as Fc.
+    destruct (cond s1) as [s2|c s2| |]; [| |exact I|exact I].
+    2:{ destruct Fc as (j & uj & E1 & E2 & E3). exists (j ++ skipn ac pre), uj.
+        rewrite E1, <- app_assoc. auto. }
+    destruct Fc as (outs & E1 & E2 & E3 & E4).
+    destruct outs as [|b outs']; [simpl in E2; lia|].
+    rewrite E1. cbn [app].
+    set (X := outs' ++ skipn ac pre).
+    assert (LX : length X = A').
+    { unfold X. rewrite app_length, skipn_length. simpl in E2. lia. }
+    assert (EX : outs' ++ skipn ac pre ++ B = X ++ B) by (unfold X; rewrite app_assoc; reflexivity).
+    rewrite EX.
+    destruct b as [z|o]; [|exact I].
+    destruct (Z.eqb z 0).
+    { exists X. cbn [set_stk stk und]. repeat split; auto. }
+    destruct (Z.eqb z 1).
+    2:{ exists X, []. cbn [set_stk stk und]. repeat split; auto. }
+    set (s2' := set_stk s2 (X ++ B)).
+    assert (Es2 : stk s2' = firstn ab X ++ (skipn ab X ++ B)).
+    { unfold s2'. cbn [set_stk stk]. rewrite app_assoc, firstn_skipn. reflexivity. }
+    pose proof (Hb (skipn ab X ++ B) (und s) (hid s) s2' (firstn ab X) Es2
+                   ltac:(rewrite firstn_length; lia) E3 E4) as Fb.
+    destruct (body s2') as [s3|c s3| |]; [| |exact I|exact I].
+    2:{ destruct Fb as (j & uj & G1 & G2 & G3). exists (j ++ skipn ab X), uj.
+        rewrite G1, <- app_assoc. auto. }
+    destruct Fb as (outs3 & G1 & G2 & G3 & G4).
+    assert (L3 : length (outs3 ++ skipn ab X) = A) by (rewrite app_length, skipn_length; lia).
+    assert (Hl3 : A <= length (stk s3)) by (rewrite G1, app_assoc, app_length; lia).
+    specialize (IHk s3 Hl3).
+    assert (Esk : skipn A (stk s3) = B).
+    { rewrite G1, app_assoc, skipn_app, <- L3, skipn_all, Nat.sub_diag. reflexivity. }
+    rewrite Esk in IHk.
+    destruct (do_loop cond body cc k s3) as [s4|c s4| |]; auto.
+    - destruct IHk as (o4 & H1 & H2 & H3 & H4). exists o4. repeat split; auto; congruence.
+    - destruct IHk as (j & uj & H1 & H2 & H3). exists j, uj. repeat split; auto; congruence.
+  Qed.
+
+  Lemma do_post fuel : P fuel -> asm_ok ->
+    forall sb body sc cond d e e' init uinit s,
+    tree_ok (Mod MDo [(sb, body); (sc, cond)]) -> vnode d (Mod MDo [(sb, body); (sc, cond)]) e = Some e' ->
+    fits e' init uinit -> sim2 e init uinit s ->
+    post e' init uinit s (exec (S fuel) (Mod MDo [(sb, body); (sc, cond)]) s).
+  Proof.
+    intros HP HA sb body sc cond d [sk un] e' init uinit s Ht Hv [F1 F2] [S1 S2]. cbn [fst snd] in S1, S2.
+    cbn [tree_ok fst snd] in Ht. destruct Ht as (_ & HnoU & _ & Tb & Ob & Tc & Oc & _).
+    specialize (HnoU eq_refl). inversion HnoU as [|? ? [U1 U2] HnoU']; subst.
+    inversion HnoU' as [|? ? [U3 U4] _]; subst. cbn [fst] in *.
+    cbn [vnode] in Hv. destruct (MAX_NODE_DEPTH <? d); [discriminate|].
+    cbn [map fst snd] in Hv. cbn [Exec.exec].
+    set (cc := sa sc - (so sc - 1)) in *.
+    set (cs := sig2 (sa sc) (so sc + cc - 1)) in *.
+    set (comp := sig_compose sb cs) in *.
+    destruct (Nat.eqb_spec (so sc) 0) as [|Hoc]; [exact I|]. cbn [orb].
+    destruct (Nat.eqb_spec (sa comp) (so comp)) as [Eq|]; [|exact I]. cbn [negb].
+    assert (Elt : (sa comp <? so comp) = false) by (apply Nat.ltb_ge; lia).
+    rewrite Elt in Hv. inversion Hv; subst e'; clear Hv. cbn [handle_ao fst snd] in *.
+    set (A := sa comp) in *.
+    set (A' := so comp + (so cs - sa sc)) in *.
+    assert (Ecs : sa cs = sa sc /\ so cs = so sc + cc - 1) by (split; reflexivity).
+    destruct Ecs as [Ecs1 Ecs2].
+    assert (Ecomp : sa comp = sa cs + (sa sb - so cs) /\ so comp = so sb + (so cs - sa sb)) by (split; reflexivity).
+    destruct Ecomp as [Ec1 Ec2].
+    pose proof (framed_of_P _ _ _ HP HA Tb Ob) as Frb.
+    pose proof (framed_of_P _ _ _ HP HA Tc Oc) as Frc.
+    assert (Hfb : frames_all (exec fuel body) (sa sb) (so sb)).
+    { intros B U H. eapply body_frames_of_framed; eauto. }
+    assert (Hfc : frames_all (exec fuel cond) (sa sc) (so sc)).
+    { intros B U H. eapply body_frames_of_framed; eauto. }
+    assert (Hl : A <= length (stk s)) by (eapply sim_enough; eauto).
+    pose proof (do_loop_frame (exec fuel cond) (exec fuel body) cc A A' (sa sc) (so sc) (sa sb) (so sb)
+                  Hfc Hfb ltac:(unfold cc; lia) ltac:(unfold A; lia) ltac:(lia)
+                  ltac:(unfold A', A, cc in *; lia) ltac:(unfold A', A, cc in *; lia)
+                  ltac:(unfold A', A, cc in *; lia) fuel s Hl) as Hd.
+    destruct (do_loop (exec fuel cond) (exec fuel body) cc fuel s) as [s'|c s'| |]; auto.
+    - destruct Hd as (outs & E1 & E2 & E3 & E4). apply post_ok; auto. split; cbn [fst snd].
+      + eapply frame_sim; eauto.
+      + rewrite E3. auto.
+    - destruct Hd as (j & uj & E1 & E2 & E3). apply post_err; auto. split; cbn [fst snd].
+      + eapply frame_simE; eauto.
+      + rewrite E2. apply simE_junk; auto.
+  Qed.
+
   Ltac senv := cbn [handle_ao handle_sig epop epush fst snd set_stk set_und set_su stk und fills fbs depth] in *.
 
   Theorem P_all : asm_ok -> forall fuel, P fuel.
@@ -1070,6 +1178,10 @@ Section Sound.
         - eapply onsub_post; eauto.
         - eapply (bothk_post fuel IH HA false); eauto.
         - eapply (bothk_post fuel IH HA true); eauto. }
+      destruct (match n with Mod MDo [_; _] => true | _ => false end) eqn:Edo.
+      { destruct n; try discriminate Edo. destruct m; try discriminate Edo.
+        destruct args as [|[sb body] [|[sc cond] [|? ?]]]; try discriminate Edo.
+        eapply do_post; eauto. }
       destruct (match n with Mod MTry _ => true | _ => false end) eqn:Etry.
       { destruct n; try discriminate Etry. destruct m; try discriminate Etry. eapply try_post; eauto. }
       destruct (match n with Mod MRepeatWithInverse [_; _] => true | _ => false end) eqn:Eri.
@@ -1104,7 +1216,7 @@ Section Sound.
         destruct e as [sk un]. destruct S as [S1 S2]. destruct F as [F1 F2].
         destruct m; destruct args as [|[sg f] [|[sg2 g] [|? ?]]]; try exact I;
           cbn [vnode map fst snd opt_bind] in Hv; try discriminate;
-          try discriminate Ei; try discriminate Ebk; try discriminate Etry;
+          try discriminate Ei; try discriminate Ebk; try discriminate Etry; try discriminate Edo;
           cbn [tree_ok fst snd] in Ht; destruct Ht as (Hup & HnoU & Hex & Ht); cbn [ignores_under] in HnoU.
         * (* Dip *)
           destruct Ht as (Tf & Of & _).
